@@ -1,23 +1,33 @@
 #!/bin/bash
-# Offline build of the whole development: regenerate coq/Gen from /repo, full .vo build, extracted models.
+# Offline build of the development for every property claimed in MANIFEST.json: regenerate coq/Gen
+# from /repo, full .vo build of the closure of each Props/<ID>.v, extracted models of each check.
 set -e
 cd "$(dirname "${BASH_SOURCE[0]}")"
 export PYTHONPATH="/repo/src:$PWD" PYTHONHASHSEED=0 PYTHONDONTWRITEBYTECODE=1
 /venv/bin/python - <<'PY'
-import glob, os, sys
+import importlib, json, os, sys
 from harness import framework as F
 ok, info = F.regenerate()
 print("regenerate:", ok, info if not ok else "")
+if not ok:
+    sys.exit(1)
+man = json.load(open(os.path.join(F.VERIF, "MANIFEST.json")))
+ids = [c["property_id"] for c in man["checks"]]
+targets, models = [], []
+for pid in ids:
+    mod = importlib.import_module("harness.props." + pid.lower())
+    chk = getattr(mod, pid)()
+    targets.append(chk.props_file.replace(".v", ".vo"))
+    for m in chk.models:
+        if m not in models:
+            models.append(m)
+            targets.append(f"Model/{m}.vo")
 with F.BuildLock():
-    mok, out, cmd = F.coq_make(["all"], timeout=5400)
+    mok, out, cmd = F.coq_make(sorted(set(targets)), timeout=5400)
     print(out[-3000:])
     if not mok:
         sys.exit(1)
-    for m in sorted(glob.glob(os.path.join(F.COQ, "Model", "*.v"))):
-        name = os.path.basename(m)[:-2]
-        text = open(m).read()
-        if "Definition main " not in text:
-            continue
+    for name in models:
         exe, err = F.build_model(name)
         print("model", name, "->", exe or err)
         if exe is None:
